@@ -8,6 +8,7 @@
 //	conv    <typeref> <value>     DecodeParameterType, then ConvertValue(structpb(value).AsInterface())
 //	convraw <typeref> <value>     ConvertValue on the raw Go value (float64 NaN/Inf stay numbers)
 //	slow    <typeref> <value>     like conv, but the conversion has to finish within 5 s (else TIMEOUT)
+//	sloweval <eval fields>        like eval, with the same 5 s deadline
 //	cast    <params> <ctx>        CastContextToTypedParameters
 //	eval    <tupleCondName> <ec:0|1> <condName> <params> <okc|raw> <expr> <tup> <req> <extra>
 //
@@ -614,63 +615,77 @@ func exec(line string, st *hx.Stats) string {
 			return encTyped(map[string]any(m))
 		})
 	case "eval":
-		tupName := string(hx.MustUnH(f[1]))
-		hasEC := f[2] == "1"
-		condName := string(hx.MustUnH(f[3]))
-		ps := decParams(f[4])
-		var source string
-		if f[5] == "okc" {
-			var rest string
-			source, rest = renderExpr(f[6])
-			if rest != "" {
-				panic("trailing expr input")
-			}
-		} else {
-			source = string(hx.MustUnH(f[6]))
+		return execEval(f)
+	case "sloweval":
+		// the same as eval, but the whole evaluation has to finish within 5 s
+		done := make(chan string, 1)
+		go func() { done <- guard(func() string { return execEval(f) }) }()
+		select {
+		case res := <-done:
+			return "done " + res
+		case <-time.After(5 * time.Second):
+			return "TIMEOUT"
 		}
-		tup, hasTup := ctxOf(f[7])
-		req, _ := ctxOf(f[8])
-		extra, hasExtra := ctxOf(f[9])
-		mk := func() *condition.EvaluableCondition {
-			return condition.NewUncompiled(&openfgav1.Condition{Name: condName, Expression: source, Parameters: paramsProto(ps)})
-		}
-		tk := &openfgav1.TupleKey{Object: "doc:1", Relation: "viewer", User: "user:anne"}
-		if tupName != "" || hasTup {
-			tk.Condition = &openfgav1.RelationshipCondition{Name: tupName, Context: tup}
-		}
-		t := guard(func() string {
-			var ec *condition.EvaluableCondition
-			if hasEC {
-				ec = mk()
-			}
-			b, err := eval.EvaluateTupleCondition(context.Background(), tk, ec, req)
-			if err != nil {
-				if b {
-					return "err-but-true:" + class(err)
-				}
-				return "err:" + class(err)
-			}
-			return strconv.FormatBool(b)
-		})
-		// Evaluate directly: [request fields (nil if absent), stored fields, extra]
-		var maps []map[string]*structpb.Value
-		maps = append(maps, req.GetFields())
-		if hasTup {
-			maps = append(maps, tup.GetFields())
-		}
-		if hasExtra {
-			maps = append(maps, extra.GetFields())
-		}
-		ec := mk()
-		e1 := guard(func() string { return evalResult(ec.Evaluate(context.Background(), maps...)) })
-		e2 := "-"
-		if e1 == "err:compile" {
-			// the same object again: Compile() reports its error only once
-			e2 = guard(func() string { return evalResult(ec.Evaluate(context.Background(), maps...)) })
-		}
-		return "T=" + t + " E=" + e1 + " E2=" + e2
 	}
 	return "badcase"
+}
+
+func execEval(f []string) string {
+	tupName := string(hx.MustUnH(f[1]))
+	hasEC := f[2] == "1"
+	condName := string(hx.MustUnH(f[3]))
+	ps := decParams(f[4])
+	var source string
+	if f[5] == "okc" {
+		var rest string
+		source, rest = renderExpr(f[6])
+		if rest != "" {
+			panic("trailing expr input")
+		}
+	} else {
+		source = string(hx.MustUnH(f[6]))
+	}
+	tup, hasTup := ctxOf(f[7])
+	req, _ := ctxOf(f[8])
+	extra, hasExtra := ctxOf(f[9])
+	mk := func() *condition.EvaluableCondition {
+		return condition.NewUncompiled(&openfgav1.Condition{Name: condName, Expression: source, Parameters: paramsProto(ps)})
+	}
+	tk := &openfgav1.TupleKey{Object: "doc:1", Relation: "viewer", User: "user:anne"}
+	if tupName != "" || hasTup {
+		tk.Condition = &openfgav1.RelationshipCondition{Name: tupName, Context: tup}
+	}
+	t := guard(func() string {
+		var ec *condition.EvaluableCondition
+		if hasEC {
+			ec = mk()
+		}
+		b, err := eval.EvaluateTupleCondition(context.Background(), tk, ec, req)
+		if err != nil {
+			if b {
+				return "err-but-true:" + class(err)
+			}
+			return "err:" + class(err)
+		}
+		return strconv.FormatBool(b)
+	})
+	// Evaluate directly: [request fields (nil if absent), stored fields, extra]
+	var maps []map[string]*structpb.Value
+	maps = append(maps, req.GetFields())
+	if hasTup {
+		maps = append(maps, tup.GetFields())
+	}
+	if hasExtra {
+		maps = append(maps, extra.GetFields())
+	}
+	ec := mk()
+	e1 := guard(func() string { return evalResult(ec.Evaluate(context.Background(), maps...)) })
+	e2 := "-"
+	if e1 == "err:compile" {
+		// the same object again: Compile() reports its error only once
+		e2 = guard(func() string { return evalResult(ec.Evaluate(context.Background(), maps...)) })
+	}
+	return "T=" + t + " E=" + e1 + " E2=" + e2
 }
 
 // ---------------------------------------------------------------- generator
@@ -899,8 +914,8 @@ func genNumString(r *hx.Rand) string {
 			s = "-" + s
 		}
 		return s
-	case 4: // exponent range errors, overflow to Inf, underflow to 0 (all fast in the real code)
-		return hx.Pick(r, []string{"1e2147483647", "1e2147483648", "1e-2147483648", "1e-2147483649", "1e-2147483650", "1e9223372036854775807", "1e9223372036854775808", "1e-9223372036854775808", "1e-9223372036854775809", "1e99999999999999999999", "0e99999999999999999999", "0e9223372036854775807", "0e-5", "1p2147483647", "3p2147483646", "1p-2147483650", "0.1e2147483647", "10e2147483646", "1e1000000000", "1e-1000000000", "1e2000000000", "-1e-2000000000", "-1e1500000000", "1e924870900", "1e-930000000"})
+	case 4: // exponent range errors, overflow to Inf, underflow to 0, extreme but representable exponents
+		return hx.Pick(r, []string{"1e2147483647", "1e2147483648", "1e-2147483648", "1e-2147483649", "1e-2147483650", "1e9223372036854775807", "1e9223372036854775808", "1e-9223372036854775808", "1e-9223372036854775809", "1e99999999999999999999", "0e99999999999999999999", "0e9223372036854775807", "0e-5", "1p2147483647", "3p2147483646", "1p-2147483650", "0.1e2147483647", "10e2147483646", "1e1000000000", "1e-1000000000", "1e2000000000", "-1e-2000000000", "-1e1500000000", "1e924870900", "1e-930000000", "1e646456992", "1e646456993", "1e-646456993", "1e-646456994", "1e-646457012", "1p2147483646", "1p-2147483648", "1p-2147483649", "1e300000000", "1e-300000000"})
 	case 5: // binary exponent
 		return strconv.Itoa(r.Intn(40)) + hx.Pick(r, []string{"p", "P", "p-", "p+"}) + strconv.Itoa(r.Intn(70))
 	case 6: // long mantissas (rounding to 64 bits)
@@ -1145,10 +1160,15 @@ func genCtxLine(r *hx.Rand, keys []string, vals []V) string {
 }
 
 func gen(r *hx.Rand, n int, tier string, emit func(string), st *hx.Stats) {
-	// one deterministic liveness case per run: a 11-byte numeric string whose conversion must fail promptly
-	st.Inc("slow")
-	emit("slow " + hx.Pick(r, []string{"i", "u"}) + " " + vStr("1e-3000000").enc())
-	for i := 1; i < n; i++ {
+	// deterministic liveness cases in every run (regression of F14): short numeric strings with a huge
+	// decimal exponent must be rejected promptly — the error message used to be built with
+	// big.Float.String(), quadratic in the exponent (minutes of CPU for these inputs)
+	st.Add("slow", 4)
+	emit("slow i " + vStr("1e-3000000").enc())
+	emit("slow u " + vStr("1e-3000000").enc())
+	emit("slow d " + vStr("1e100000000").enc())
+	emit("sloweval " + hx.HS("c") + " 1 " + hx.HS("c") + " x:i okc <px.i10. ~ " + vMap([]string{"x"}, []V{vStr("1e-3000000")}).enc() + " ~")
+	for i := 4; i < n; i++ {
 		c := r.Fork()
 		switch k := c.Intn(20); {
 		case k < 5:
